@@ -27,7 +27,7 @@ rc0, out0 = sh(f'go test -vet=off -count=1 {race} -run TestSeedDemo ./pkg/ggql',
 rca, outa = sh(f'git apply {patch}', wt)
 rc1, out1 = sh(f'go test -vet=off -count=1 {race} -run TestSeedDemo ./pkg/ggql', wt)
 os.remove(f'{wt}/pkg/ggql/zz_seed_demo_test.go')
-rcb, outb = sh('/verif/tools/baseline.sh ' + wt, wt)
+rcb, outb = sh('BASELINE_PKGS="./cmd/... ./pkg/..." /verif/tools/baseline.sh ' + wt, wt)
 sh('git checkout -- .', wt)
 meta['confirmed'] = {'demo_passes_pristine': rc0 == 0, 'patch_applies': rca == 0, 'demo_fails_patched': rc1 != 0, 'pinned_suite_passes_patched': rcb == 0, 'race_flag': race}
 print('confirm:', meta['confirmed'])
